@@ -247,6 +247,12 @@ def doOp (st : St) (w : List String) : St × List String × Bool :=
         | none => none
       | none => none)
     (st', ls, false)
+  -- a new connection for the same channel object: ids and outstanding calls are the channel's; the old connection is
+  -- gone, with whatever the peer had written to it and the loop had not read yet
+  | ["reconn", c] =>
+    let (st', ls) := withChan st (c.toNat?.getD 1000000) (fun ch =>
+      if live ch ∧ !ch.server then some ({ ch with inbox := [] }, []) else none)   -- what was in flight on the old connection is lost
+    (st', ls, false)
   | ["destroy", c] =>
     let (st', ls) := withChan st (c.toNat?.getD 1000000) (fun ch =>
       if live ch ∧ !ch.server then
